@@ -763,7 +763,9 @@ def _kw_names(f):
     if key not in _KW_SIG:
         names = None
         try:
-            if inspect.isfunction(f):
+            top = (getattr(f, "__module__", "") or "").split(".")[0]
+            if inspect.isfunction(f) and (top.startswith("pyModeS") or top.startswith("pms_") or top.startswith("c_common")):
+                # functions of the package (under any of the names its copies are loaded as) - never a helper of the harness, which may hold state
                 ps = list(inspect.signature(f).parameters.values())
                 if all(p.kind == p.POSITIONAL_OR_KEYWORD for p in ps):
                     names = [p.name for p in ps]
